@@ -646,12 +646,67 @@ def zc_run(g, kinds, nep, steps):
             zc_episode(g, kind, steps)
 
 
+def zc_shift_episodes(g, nep):
+    """zero-copy receiver + slot shifting: an in-place operation empties an EARLIER chunk of a view, the later chunks (still
+    aliasing the caller's buffer) slide down; then every chunk of the view is written to"""
+    r = g.r
+    for _ in range(nep):
+        ep = A(g)
+        n = r.choice([3, 4, 5])
+        base = r.choice([0, 1, 9, 65500])
+        ks = [base + i for i in range(n)]
+        x = g.fresh("s")
+        ep.mk(x, ks, r.randrange(2))
+        m = g.fresh("m")
+        kind = r.choice(["frombuffer", "fromunsafe", "frozen"])
+        ep.frozen = kind == "frozen"
+        g.emit("%s %s %s" % ("zfrozen" if kind == "frozen" else "zbuf", m, x))
+        v = g.fresh("v")
+        g.emit("zrd %s %s %s" % (v, kind, m))
+        ep.define(v, ks, [m])
+        ep.views.add(v)
+        victim = r.choice(ks[:-1])
+        lo, hi = victim * 65536, (victim + 1) * 65536
+        w = g.fresh("s")
+        how = r.choice(["iandnot", "iandnot", "iand", "remr", "ixor"])
+        g.count("zc:shift:" + how)
+        if how == "iandnot":
+            g.emit("new %s" % w)
+            g.emit("addr %s %d %d" % (w, lo, hi))
+            ep.define(w, [victim])
+            g.emit("iandnot %s %s" % (v, w))
+        elif how == "iand":
+            g.emit("new %s" % w)
+            for k in ks:
+                if k != victim:
+                    g.emit("addr %s %d %d" % (w, k * 65536, (k + 1) * 65536))
+            ep.define(w, [k for k in ks if k != victim])
+            g.emit("iand %s %s" % (v, w))
+        elif how == "remr":
+            g.emit("remr %s %d %d" % (v, lo, hi))
+        else:
+            g.emit("clone %s %s" % (w, x))
+            ep.define(w, ks)
+            g.emit("remr %s %d %d" % (w, hi, (ks[-1] + 1) * 65536))
+            if victim > ks[0]:
+                g.emit("remr %s %d %d" % (w, ks[0] * 65536, lo))
+            g.emit("ixor %s %s" % (v, w))
+        ep.check()
+        for k in ks:
+            g.emit("%s %s %d" % (r.choice(["add", "rem", "rem"]), v, k * 65536 + r.choice([0, 1, 77, 65535])))
+        g.emit("remr %s %d %d" % (v, ks[-1] * 65536 + 5, ks[-1] * 65536 + 500))
+        ep.check()
+        g.emit("zsame %s" % m)
+        ep.dropall()
+
+
 @suite("zerocopy")
 def _zerocopy(g, scale):
     n = max(1, int(5 * scale))
     # frozen views last: mutating one trips known defects and may take the process down
     zc_run(g, ["frombuffer", "fromunsafe", "dense0", "dense1"], n, 16)
     zc_run(g, ["frozen"], n, 16)
+    zc_shift_episodes(g, max(2, int(10 * scale)))
 
 
 @suite("zc_portable")
